@@ -571,6 +571,7 @@ type fmtRoles struct {
 	ms       map[string]*ast.FuncDecl
 	appendFD *ast.FuncDecl
 	intrFD   *ast.FuncDecl // the intrinsic type switch
+	fields   []*types.Var  // the formatter's fields, those of embedded private structs included
 }
 
 func bindFormatter(c *Ctx, r *Rec) *fmtRoles {
@@ -579,11 +580,39 @@ func bindFormatter(c *Ctx, r *Rec) *fmtRoles {
 		return nil
 	}
 	info := c.info("cdcn")
-	fr := &fmtRoles{n: n, ms: c.methodsOf(n)}
+	fr := &fmtRoles{n: n, ms: map[string]*ast.FuncDecl{}}
+	for name, fd := range c.methodsOf(n) {
+		fr.ms[name] = fd
+	}
 	written := fieldsWrittenInMethods(c, info, n)
-	if st := structOf(n); st != nil {
+	// the state may sit in a private struct that the formatter embeds (its fields and methods are
+	// promoted): the fields are looked for there too, and its methods count as the formatter's
+	var fields []*types.Var
+	var flatten func(st *types.Struct, depth int)
+	flatten = func(st *types.Struct, depth int) {
 		for i := 0; i < st.NumFields(); i++ {
 			f := st.Field(i)
+			if en := derefNamed(f.Type()); f.Embedded() && en != nil && en.Obj().Pkg() == n.Obj().Pkg() && structOf(en) != nil && depth < 2 {
+				for name, fd := range c.methodsOf(en) {
+					if fr.ms[name] == nil {
+						fr.ms[name] = fd
+					}
+				}
+				for k, v := range fieldsWrittenInMethods(c, info, en) {
+					if v {
+						written[k] = true
+					}
+				}
+				flatten(structOf(en), depth+1)
+				continue
+			}
+			fields = append(fields, f)
+		}
+	}
+	if st := structOf(n); st != nil {
+		flatten(st, 0)
+		fr.fields = fields
+		for _, f := range fields {
 			if b, ok := f.Type().Underlying().(*types.Basic); ok && b.Kind() == types.Int {
 				if written[f] {
 					fr.depthF = f
@@ -614,7 +643,7 @@ func bindFormatter(c *Ctx, r *Rec) *fmtRoles {
 		}
 		// the intrinsic dispatcher: a method whose body is a type switch on its parameter with >= 10 clauses
 		ast.Inspect(fd.Body, func(x ast.Node) bool {
-			if ts, ok := x.(*ast.TypeSwitchStmt); ok && len(ts.Body.List) >= 10 {
+			if ts, ok := x.(*ast.TypeSwitchStmt); ok && typeSwitchTypes(ts) >= 10 {
 				fr.intrFD = fd
 			}
 			return true
@@ -627,7 +656,7 @@ func bindFormatter(c *Ctx, r *Rec) *fmtRoles {
 				continue
 			}
 			ast.Inspect(fd.Body, func(x ast.Node) bool {
-				if ts, ok := x.(*ast.TypeSwitchStmt); ok && len(ts.Body.List) >= 10 && fr.intrFD == nil {
+				if ts, ok := x.(*ast.TypeSwitchStmt); ok && typeSwitchTypes(ts) >= 10 && fr.intrFD == nil {
 					fr.intrFD = fd
 				}
 				return true
@@ -1134,6 +1163,7 @@ func checkConverterPairs(c *Ctx, r *Rec, fr *fmtRoles, st *scanTables) {
 	}
 	r.floor("D2-converter-pairs", 7)
 	checkUnquotedTextKept(c, r, "D2-unquoted-text-kept", "cdcn")
+	checkIntrinsicFamilies(c, r, "D1-intrinsic-families", fr)
 }
 
 // ---------------------------------------------------------------- D3 purity
@@ -1180,9 +1210,7 @@ func checkFormatterPurity(c *Ctx, r *Rec, fr *fmtRoles) {
 	}
 	// fields written anywhere during formatting
 	fw := c.fieldWrites()
-	stt := structOf(fr.n)
-	for i := 0; i < stt.NumFields(); i++ {
-		f := stt.Field(i)
+	for _, f := range fr.fields {
 		if len(fw[f.Origin()]) == 0 {
 			continue
 		}
@@ -1347,4 +1375,71 @@ func sortedFds(m map[string]*ast.FuncDecl) []*ast.FuncDecl {
 		out = append(out, m[k])
 	}
 	return out
+}
+
+// typeSwitchTypes counts the types a type switch names (clauses may group several).
+func typeSwitchTypes(ts *ast.TypeSwitchStmt) int {
+	n := 0
+	for _, cl := range ts.Body.List {
+		if cc, ok := cl.(*ast.CaseClause); ok {
+			n += len(cc.List)
+		}
+	}
+	return n
+}
+
+// checkIntrinsicFamilies: the intrinsic type switch of the formatter handles the primitive types
+// family by family (unsigned integers, signed integers, floats, complex numbers).  A family of
+// which some members have an arm and another has none is a member that was lost: a value of that
+// type falls into the default arm, so FormatValue is not total on the primitives.
+func checkIntrinsicFamilies(c *Ctx, r *Rec, rule string, fr *fmtRoles) {
+	info := c.infoFor(fr.intrFD)
+	if info == nil {
+		return
+	}
+	have := map[types.BasicKind]bool{}
+	ast.Inspect(fr.intrFD.Body, func(x ast.Node) bool {
+		ts, ok := x.(*ast.TypeSwitchStmt)
+		if !ok || typeSwitchTypes(ts) < 10 {
+			return true
+		}
+		for _, cl := range ts.Body.List {
+			for _, e := range cl.(*ast.CaseClause).List {
+				if t := info.TypeOf(e); t != nil {
+					if b, ok := t.Underlying().(*types.Basic); ok && types.Identical(t, b) || ok && t.String() == "rune" || ok && t.String() == "byte" {
+						have[b.Kind()] = true
+					}
+				}
+			}
+		}
+		return false
+	})
+	families := []struct {
+		name  string
+		kinds []types.BasicKind
+	}{
+		{"unsigned integers", []types.BasicKind{types.Uint, types.Uint8, types.Uint16, types.Uint32, types.Uint64}},
+		{"signed integers", []types.BasicKind{types.Int, types.Int8, types.Int16, types.Int32, types.Int64}},
+		{"floating point numbers", []types.BasicKind{types.Float32, types.Float64}},
+		{"complex numbers", []types.BasicKind{types.Complex64, types.Complex128}},
+	}
+	for _, fam := range families {
+		var present, missing []string
+		for _, k := range fam.kinds {
+			if have[k] {
+				present = append(present, types.Typ[k].Name())
+			} else {
+				missing = append(missing, types.Typ[k].Name())
+			}
+		}
+		construct := c.fdName(fr.intrFD) + "/" + fam.name
+		switch {
+		case len(present) == 0:
+			r.skip(rule, construct, c.pos(fr.intrFD.Pos()), "no arm for this family in the type switch")
+		case len(missing) > 0:
+			r.fail(rule, construct, c.pos(fr.intrFD.Pos()), fmt.Sprintf("the type switch has arms for %v but none for %v: a value of that type falls into the default arm (the \"unknown intrinsic\" panic), so the formatter is not total on the %s", present, missing, fam.name))
+		default:
+			r.ok(rule, construct, c.pos(fr.intrFD.Pos()), fmt.Sprintf("every type of the family has an arm: %v", present))
+		}
+	}
 }
